@@ -79,6 +79,7 @@ type c11env struct {
 	args     *DefaultProposalProcessorArgs
 	direct   *DefaultProposalProcessor // direct flavour: the processor driven without ProposalProcessors
 	directP  int                       // direct flavour: Process calls made
+	panics   []string                  // Q part: panics of Save
 }
 
 // c11Fault: the scripted answer of a writer / operation call: a plain error, or one
@@ -437,7 +438,13 @@ func (e *c11env) save(name string, match bool) string {
 	f := e.facts[name]
 	n := len(e.saved)
 
-	_, err := e.pps.Save(context.Background(), f.hash, e.avp(name, match))
+	var err error
+
+	if panicked, msg := vlib.Catch(func() { _, err = e.pps.Save(context.Background(), f.hash, e.avp(name, match)) }); panicked {
+		e.panics = append(e.panics, msg)
+
+		return "save:panic"
+	}
 
 	switch {
 	case err == nil && len(e.saved) == n+1:
@@ -461,6 +468,10 @@ func (e *c11env) check() []c11vio {
 	vio := func(sig map[string]any, format string, args ...any) {
 		sig["flavour"] = e.flavour
 		vios = append(vios, c11vio{sig, fmt.Sprintf(format, args...) + " | calls: " + strings.Join(e.calls, " ")})
+	}
+
+	for _, msg := range e.panics {
+		vio(map[string]any{"kind": "panic-in-save"}, "Save panicked: %s", msg)
 	}
 
 	byHeight := map[base.Height]string{}
@@ -725,7 +736,6 @@ func c11qRunDirect(path []c11event) (vios []c11vio, obs, key string) {
 
 			switch m, err := p.Process(context.Background(), nil); {
 			case err != nil:
-				if ev.answer == "" { println("C11DEBUG", fmt.Sprintf("%+v", err)) }
 				obs = "process:failed"
 			case m == nil:
 				obs = "process:no-manifest"
@@ -739,7 +749,16 @@ func c11qRunDirect(path []c11event) (vios []c11vio, obs, key string) {
 
 			n := len(e.saved)
 
-			switch _, err := p.Save(context.Background(), e.avp("F1a", ev.match)); {
+			var err error
+
+			if panicked, msg := vlib.Catch(func() { _, err = p.Save(context.Background(), e.avp("F1a", ev.match)) }); panicked {
+				obs = "save:panic"
+				e.panics = append(e.panics, msg)
+
+				continue
+			}
+
+			switch {
 			case err == nil && len(e.saved) == n+1:
 				obs = "save:saved"
 			case err == nil:
